@@ -26,3 +26,5 @@ def step (b : OB) (ws : List String) : OB × String :=
 def run : IO Unit := ZChain.Drv.runLoop step (new 0)
 
 end ZChain.Drv.C46
+
+def main : IO Unit := ZChain.Drv.C46.run
